@@ -458,6 +458,81 @@ theorem C03_both_code_paths_build_the_same_set (st : Store) (h : st.WF) (s : Nat
   rw [((C03_groupby_partitions_in_order key (st.get s)).2.1 g hg).1]
   exact dedup_of_nodup (hn.sublist List.filter_sublist)
 
+/-- agents are named by their position in the population (what the harness and the driver do) -/
+def Store.IdsArePositions (st : Store) : Prop := ∀ (i : Nat) (a : Agent), st.pop[i]? = some a → a.id = i
+
+private theorem applyOp_pop_ids (st : Store) (op : SOp) : (applyOp st op).pop.map (·.id) = st.pop.map (·.id) := by
+  cases op with
+  | setAttr s' k' v' => exact ((C03_get_set_agg_map_list_semantics st s' k').2.2 v').1
+  | mk ids => simp [applyOp, mk, put_pop]
+  | select s' p t a i => simp [applyOp, select, put_pop]
+  | shuffle s' i => simp [applyOp, shuffle, put_pop]
+  | sort s' key asc i =>
+    cases hk : keysOf st key (st.get s') with
+    | none => simp [applyOp, sort, hk]
+    | some ks => simp [applyOp, sort, hk, put_pop]
+  | group s' key b =>
+    cases hk : keysOf st key (st.get s') with
+    | none => simp [applyOp, group, hk]
+    | some ks => cases b <;> simp [applyOp, group, hk]
+  | add s' a => simp [applyOp, add]
+  | discard s' a => simp [applyOp, discard]
+  | remove s' a =>
+    by_cases hm : a ∈ st.get s'
+    · simp [applyOp, remove, hm, discard]
+    · simp [applyOp, remove, hm]
+  | setop o s' x => simp [applyOp, setop, put_pop]
+  | isetop o s' x => simp [applyOp, isetop]
+  | pop s' =>
+    cases hl : st.get s' with
+    | nil => simp [applyOp, pop, hl, popL]
+    | cons a rest => simp [applyOp, pop, hl, popL]
+  | clear s' => simp [applyOp, clear]
+  | kill a => simp [applyOp, kill]
+
+/-- **`set` then `get` reads the value back** (review M21: reads go by position, writes by id — they meet because ids *are*
+    positions, an invariant of every history): after `set(k, v)` on a set whose members belong to the population, `get(k)` on
+    that set returns `v` for every member (and never raises); and no history of operations ever breaks "ids are positions". -/
+theorem C03_set_then_get_reads_the_value (st : Store) (s k : Nat) (v : Int) (hid : st.IdsArePositions) :
+    ((∀ i ∈ st.get s, i < st.pop.length) →
+      get (setAttr st s k v) s [k] .error = .ok ((st.get s).map fun _ => [some v])) ∧
+    (∀ ops : List SOp, (ops.foldl applyOp st).IdsArePositions) := by
+  constructor
+  · intro hmem
+    have hget : (setAttr st s k v).get s = st.get s := rfl
+    have key : ∀ i ∈ st.get s, ((setAttr st s k v).agent i).attr k = some v := by
+      intro i hi
+      have hlt := hmem i hi
+      have hp : st.pop[i]? = some st.pop[i] := List.getElem?_eq_getElem hlt
+      have hidi := hid i _ hp
+      simp only [Store.agent, setAttr, List.getElem?_map, hp, Option.map_some, Option.getD_some, hidi, hi, if_true]
+      simp [Agent.setAttr, Agent.attr]
+    have hall : allPresent (setAttr st s k v) s [k] = true := by
+      simp only [allPresent, hget, List.all_eq_true]
+      intro i hi
+      simp [key i hi]
+    simp only [get, hall, if_true, rowsOf, hget]
+    congr 1
+    apply List.map_congr_left
+    intro i hi
+    simp [key i hi]
+  · intro ops
+    induction ops generalizing st with
+    | nil => exact hid
+    | cons op ops ih =>
+      rw [List.foldl_cons]
+      apply ih
+      unfold Store.IdsArePositions
+      intro i a ha
+      have h1 : ((applyOp st op).pop.map (·.id))[i]? = some a.id := by simp [ha]
+      rw [applyOp_pop_ids] at h1
+      simp only [List.getElem?_map] at h1
+      cases hp : st.pop[i]? with
+      | none => simp [hp] at h1
+      | some b =>
+        simp [hp] at h1
+        rw [← h1]; exact hid i b hp
+
 /-! ### non-vacuity: a concrete store exercising the statements above -/
 
 private def demo : Store :=
@@ -474,6 +549,8 @@ example : (select demo 0 none (some 0) (.count 2) false).1.get 1 = [0, 1] := by 
 /-- `select(lambda a: a.x >= 2, agent_type=T1)`: of the members with x ≥ 2 (0, 2, 4) only agent 2 (class T2 ⊂ T1) qualifies -/
 example : selectIds demo [0, 1, 2, 3, 4] (some (.ge 0 2)) (some 1) .inf = [2] := by decide
 example : dedup [3, 1, 3, 2, 1] = [3, 1, 2] := by decide
+example : get (setAttr demo 0 1 9) 0 [1] .error = .ok [[some 9], [some 9], [some 9], [some 9], [some 9]] ∧
+    get demo 0 [1] .error = .error .attr := ⟨by rfl, by rfl⟩
 example : ((setAttr demo 0 1 9).pop[1]?.map (·.attrs)) = some [(1, 9), (0, 1)] := by decide
 example : (shuffle demo 0 false).1.get 1 = [0, 2, 4, 1, 3] ∧ (shuffle demo 0 false).1.get 0 = [0, 1, 2, 3, 4] := by decide
 example : (group demo 0 (.attr 0) false).toOption.map (·.2) = some [(2, [0, 2, 4]), (1, [1, 3])] := by decide
